@@ -23,8 +23,8 @@ from okdmr.dmrlib.etsi.layer2.elements.csbk_opcodes import CsbkOpcodes
 from okdmr.dmrlib.etsi.layer2.elements.data_packet_formats import DataPacketFormats
 from okdmr.dmrlib.etsi.layer2.elements.sap_identifier import SAPIdentifier
 from okdmr.dmrlib.etsi.layer2.elements.full_message_flag import FullMessageFlag
-from okdmr.dmrlib.etsi.layer2.pdu.rate34_data import Rate34Data
-from okdmr.dmrlib.etsi.layer2.pdu.rate1_data import Rate1Data
+from okdmr.dmrlib.etsi.layer2.pdu.rate34_data import Rate34Data, Rate34DataTypes
+from okdmr.dmrlib.etsi.layer2.pdu.rate1_data import Rate1Data, Rate1DataTypes
 from okdmr.dmrlib.etsi.layer3.pdu.udp_ipv4_compressed_header import UDPIPv4CompressedHeader
 from okdmr.dmrlib.etsi.layer3.elements.service_options import ServiceOptions
 from okdmr.dmrlib.hytera.pdu.radio_control_protocol import RadioControlProtocol, RCPOpcode
@@ -49,7 +49,7 @@ from okdmr.dmrlib.etsi.layer2.pdu.data_header import DataHeader
 from okdmr.dmrlib.etsi.layer2.pdu.full_link_control import FullLinkControl
 from okdmr.dmrlib.etsi.layer2.pdu.short_link_control import ShortLinkControl
 from okdmr.dmrlib.etsi.layer2.pdu.pi_header import PIHeader
-from okdmr.dmrlib.etsi.layer2.pdu.rate12_data import Rate12Data
+from okdmr.dmrlib.etsi.layer2.pdu.rate12_data import Rate12Data, Rate12DataTypes
 from okdmr.dmrlib.etsi.layer2.pdu.slot_type import SlotType
 from okdmr.dmrlib.etsi.layer2.pdu.embedded_signalling import EmbeddedSignalling
 from okdmr.dmrlib.hytera.pdu.hdap import HDAP
@@ -156,6 +156,8 @@ ENTRY = {
     "CRC9.calculate_from_parts": ("crc", lambda d: CRC9.calculate_from_parts(d, 3, CrcMasks.Rate12DataContinuation), _bytes(10)),
     "BitCrc16.bitwise": ("crc", lambda d: BitCrcCalculator(Crc16.ETSI_DMR, table_based=False).calculate_checksum(d), _bits(24)),
     "BitCrc9.table-partial": ("crc", lambda d: BitCrcCalculator(Crc9.ETSI_DMR, table_based=True).calculate_checksum(d), _bits(23)),
+    "CRC9.calculate_from_parts.with-crc32": ("crc", lambda d, c: CRC9.calculate_from_parts(d, 3, CrcMasks.Rate12DataContinuation, c), lambda hx, t: (hx.bytes(6, t), hx.bytes(4, t + "c"))),
+    "CRC9.check.with-crc32": ("crc", lambda d, c, v: CRC9.check(d, 5, v, CrcMasks.Rate34DataContinuation, c), lambda hx, t: (hx.bytes(12, t), hx.bytes(4, t + "c"), hx.int(9, t + "v"))),
     "CRC8.check": ("crc", lambda d: CRC8.check(d, 0x5A), _bits(28)),
     "CRC32.check": ("crc", lambda d: CRC32.check(d, 0x12345678), _bytes(8)),
     "CRC9.calculate": ("crc", lambda d: CRC9.calculate(d, CrcMasks.Rate12DataContinuation), _bits(87)),
@@ -197,6 +199,9 @@ ENTRY = {
     "DataHeader.decode-encode": ("pdu", lambda b: DataHeader.from_bits(bitarray("00000010") + bitarray("1010") + b).as_bits(), lambda hx, t: (hx.ba(84, t),)),
     "FullLC77.from_bits": ("pdu", lambda b: FullLinkControl.from_bits(bitarray("00000000") + bitarray("00000000") + b), lambda hx, t: (hx.ba(61, t),)),
     "Rate34Data.from_bits": ("pdu", Rate34Data.from_bits, _bits(144)),
+    "Rate12Data.confirmed-last-block": ("pdu", lambda b: Rate12Data.from_bits_typed(b, Rate12DataTypes.ConfirmedLastBlock), _bits(96)),
+    "Rate34Data.confirmed-last-block": ("pdu", lambda b: Rate34Data.from_bits_typed(b, Rate34DataTypes.ConfirmedLastBlock), _bits(144)),
+    "Rate1Data.confirmed-last-block": ("pdu", lambda b: Rate1Data.from_bits_typed(b, Rate1DataTypes.ConfirmedLastBlock), _bits(192)),
     "Rate1Data.from_bits": ("pdu", Rate1Data.from_bits, _bits(192)),
     "UDPIPv4.from_bits": ("pdu", UDPIPv4CompressedHeader.from_bits, lambda hx, t: (hx.ba(16, t + "i") + bitarray("00010010") + hx.ba(32, t),)),
     "ServiceOptions(defaults).as_bits": ("pdu", lambda: ServiceOptions().as_bits(), lambda hx, t: ()),
